@@ -9,7 +9,9 @@ def run(name, race=False, tool=GO, **kw):
 PROPS = {}
 
 PROPS['C15'] = dict(
-    runs=[run('plain')], shards=16, watchdog=False, level='exploration',
+    runs=[run('plain'), run('race', race=True, shards=1, restart=False, env={'VERIF_PART': 'concurrent'}, race_prop='C15',
+                            race_prefixes=('packet.Checksum', 'packet.IP4.', 'packet.EncodeIP4', 'packet.ICMP.', 'packet.EncodeICMP'))],
+    shards=16, watchdog=False, level='exploration',
     rule=('cases: every byte string of length 0..2 (quick) / 0..3 (thorough), single 16-bit-word perturbations '
           '{0000,ffff,8000,00ff,ff00} at every offset of carriers of length 20,21,1500,1521,1522, all-ff and ramp carriers of every '
           'length 0..1522, PRNG strings with length = index mod 1523 plus a split-point identity check, IPv4 headers through '
@@ -471,4 +473,29 @@ _RULE_ADD4 = {
 }
 _RULE_ADD4['C12'] = _RULE_ADD4['C11'] + _RULE_ADD4['C07']
 for _p, _t in _RULE_ADD4.items():
+    PROPS[_p]['rule'] = PROPS[_p]['rule'] + _t
+
+# features added after the eleventh round
+for _p, _m in {'C05': {'frames_injected_between_purge_steps': 2000}, 'C07': {'forged_declines_checked': 300}, 'C11': {'forged_declines_checked': 300},
+               'C12': {'forged_declines_checked': 300}, 'C13': {'histories_with_send_window': 40}, 'C14': {'ra_from_nobody_checked': 200},
+               'C15': {'headers_completed_concurrently': 50000}, 'C16': {'untracked_source_pairs_measured': 500},
+               'C19': {'late_pings_after_slow_send_failure': 200}, 'C20': {'dns_entries_with_all_three_lists': 15}}.items():
+    PROPS[_p]['min_obs'] = dict(PROPS[_p]['min_obs'])
+    PROPS[_p]['min_obs']['quick'] = dict(PROPS[_p]['min_obs'].get('quick', {}), **_m)
+_RULE_ADD5 = {
+    'C02': ' Station MACs include unicast addresses that look special (all zero, 01-bit clear but ff:.. tails, vendor prefixes of multicast ranges with the group bit clear).',
+    'C05': ' One random history in sixteen delivers frames from inside the purge pass, at its yield points (hook), so that a frame is parsed between two steps of one pass.',
+    'C07': ' The DECLINE this host forges in answer to a foreign server\'s OFFER must name the offered address (yiaddr), that server, the client\'s chaddr / identifier and the OFFER\'s xid (rule dhcp:forged-decline-fields).',
+    'C09': ' Close is called from four goroutines at once.',
+    'C13': ' Window mode: the transport delays every write by a few milliseconds of virtual time, so StopHunt, the claim and the DHCP confirmation fall between the frames of one burst; the only rule is that the station is not left poisoned after the hunt stopped (arp:left-poisoned-after-stop).',
+    'C14': ' Router advertisements whose source MAC belongs to nobody on the LAN must not redirect the hunt target (router:learned-from-nobody).',
+    'C15': ' Eight goroutines complete headers in their own buffers at once and are compared with the reference; a second, race-built run of that part reports races inside the checksum / header code under C15.',
+    'C16': ' Frames whose source address belongs to nobody (not this host, not the router, not tracked) in kinds that must not create a host are measured as pairs: allocation free and no host afterwards.',
+    'C17': ' Recording the same answer twice must leave the entry and the pending flag of the host as after the first time (host-pending-changed).',
+    'C19': ' An injected send failure may take a millisecond to be reported while later pings take their identifiers; two more pings started after it must get identifiers no other pending ping of the scenario used on the wire.',
+    'C20': ' DNS table entries (decoded answers enriched with random A, AAAA and CNAME records) are rendered and each of the three lists is compared with the records of its own kind.',
+}
+_RULE_ADD5['C04'] = _RULE_ADD5['C06'] = _RULE_ADD5['C05']
+_RULE_ADD5['C11'] = _RULE_ADD5['C12'] = _RULE_ADD5['C07']
+for _p, _t in _RULE_ADD5.items():
     PROPS[_p]['rule'] = PROPS[_p]['rule'] + _t
